@@ -297,3 +297,34 @@ Definition check_sync (c : sync_case) : N :=
     if malformed then nth 0 o false && nth 2 o false && negb (nth 3 o true) && has && (max_penalty <=? score)
     else beq_list Bool.eqb o [true; true; false; true] && negb has in
   code agree_model spec.
+
+(* ---------------- (E) one peer identity connected from two IPs at once *)
+(* scenario 0 BanPeer, 1 ApplyPenalty 60 twice; observation
+   [two connections with different IPs before; v4 banned; v6 banned; v4 refused by the gates; v6 refused by the gates;
+    still connected; dial from v4 refused; dial from v6 refused; anything still banned after expiry];
+   scores after the offence (v4, v6; has entry flags) *)
+Definition twoips_case : Type := (N * list bool * (bool * Z) * (bool * Z))%type.
+Definition IP6 : N := 10%N.
+
+Definition twoips_model (scen : N) : node :=
+  let n0 := mkNode (empty_gater 1) [(B, IP); (B, IP6)] in
+  match scen with
+  | 0%N => ban_peer_id n0 B 1000
+  | _ => apply_penalty (apply_penalty n0 B 60 1000) B 60 1000
+  end.
+
+Definition check_twoips (c : twoips_case) : N :=
+  let '(scen, o, s4, s6) := c in
+  let n := twoips_model scen in
+  let g := gt n in
+  let refused ip := negb (inbound_ok g (Some ip)) && negb (outbound_ok g (Some ip)) in
+  let g3 := sweep g 1003 in
+  let mo := [true; banned g IP; banned g IP6; refused IP; refused IP6; connected n B; refused IP; refused IP6;
+             banned g3 IP || banned g3 IP6] in
+  let sc_ok (x : bool * Z) ip := match sc g ip with Some i => fst x && (snd x =? score i) | None => negb (fst x) end in
+  let agree_model := beq_list Bool.eqb o mo && sc_ok s4 IP && sc_ok s6 IP6 in
+  (* oracle: after a penalty that reaches the threshold every IP the peer was connected from is banned and refused in both
+     directions, the peer is disconnected; after expiry nothing stays banned *)
+  let spec := beq_list Bool.eqb o [true; true; true; true; true; false; true; true; false] &&
+              fst s4 && fst s6 && (max_penalty <=? snd s4) && (max_penalty <=? snd s6) in
+  code agree_model spec.
